@@ -132,6 +132,47 @@ impl Prop for C08 {
     }
     fn gen(&self, seed: u64, _tier: Tier) -> Case {
         let mut r = Rng::new(seed);
+        if r.chance(80) {
+            // 'shared-mod' population: the user physically holds (or presses and releases) the very
+            // modifier a macro holds around a group; the macro's group must stay modified whatever
+            // the user does with the physical key
+            let (mname, mkey, mout) = *r.pick(&[("S", "lsft", "LShift"), ("C", "lctl", "LCtrl"), ("A", "lalt", "LAlt")]);
+            let d = *r.pick(&[5u64, 20, 50]);
+            let variant = *r.pick(&["macro", "macro-release-cancel", "macro-repeat"]);
+            let tail = if r.chance(400) { " z" } else { "" };
+            let mut case = Case { prop: "C08".into(), seed, ..Default::default() };
+            case.cfg = format!("(defsrc a lsft lctl lalt)\n(deflayer l0 ({variant} {mname}-(x {d} y){tail}) lsft lctl lalt)\n");
+            let (ka, km) = (oscode_of("a"), oscode_of(mkey));
+            let mut ops = vec![Op::Gap(2)];
+            let before = r.chance(600);
+            if before {
+                // modifier held before the macro starts
+                ops.push(Op::Press(km));
+                ops.push(Op::Gap(r.range(1, 10) as u32));
+                ops.push(Op::Press(ka));
+                ops.push(Op::Gap(r.range(1, d + 8) as u32));
+                ops.push(Op::Release(km));
+                ops.push(Op::Gap((d + 20) as u32));
+                ops.push(Op::Release(ka));
+            } else {
+                // modifier tapped while the macro holds it
+                ops.push(Op::Press(ka));
+                ops.push(Op::Gap(r.range(2, d.max(3)) as u32));
+                ops.push(Op::Press(km));
+                ops.push(Op::Gap(r.range(1, 6) as u32));
+                ops.push(Op::Release(km));
+                ops.push(Op::Gap((d + 20) as u32));
+                ops.push(Op::Release(ka));
+            }
+            ops.push(Op::Gap(60));
+            case.ops = ops;
+            case.set("pop", "shared-mod");
+            case.set("mod_out", mout);
+            case.set("min_ops", 0);
+            case.set("min_gaps", 0);
+            case.set("min_cfg", 0);
+            return case;
+        }
         let pop = *r.pick(&["single", "single", "interleaved", "concurrent", "overflow", "cancel-press"]);
         let nm = match pop {
             "single" | "interleaved" | "cancel-press" => 1,
@@ -242,6 +283,39 @@ impl Prop for C08 {
         o.sig = sig;
         o.nontrivial = !outs.is_empty();
         let pop = case.param("pop").unwrap_or("single").to_string();
+        if pop == "shared-mod" {
+            let m = case.param("mod_out").unwrap_or("LShift").to_string();
+            let d = st.down_set();
+            if !d.is_empty() {
+                o.set_fail("C08:keys-down-after-macro-end", format!("still down: {:?}: {}", d.keys, outs_short(&outs)), vec![]);
+                return o;
+            }
+            // only the first run of a repeating macro is judged (the repeat stops with the key)
+            let mut ds = DownSet::default();
+            let mut seen_x = false;
+            let mut seen_y = false;
+            for e in &outs {
+                if e.kind == OutKind::Press && (e.key == "X" || e.key == "Y") && !ds.keys.contains(&m) {
+                    o.set_fail(
+                        "C08:macro-group-lost-its-modifier",
+                        format!("{} of the group {m}-(x .. y) was pressed while {m} is up at the OS (the user released the physical {m} key, which is not the macro's hold): ops {} :: {}", e.key, ops_short(&case.ops), outs_short(&outs)),
+                        vec![],
+                    );
+                    return o;
+                }
+                if e.kind == OutKind::Press && e.key == "X" {
+                    seen_x = true;
+                }
+                if e.kind == OutKind::Press && e.key == "Y" {
+                    seen_y = true;
+                }
+                ds.apply(e);
+            }
+            if !(seen_x && seen_y) {
+                o.set_fail("C08:macro-output-differs-from-its-list", format!("x and y of the group were not both typed: {}", outs_short(&outs)), vec![]);
+            }
+            return o;
+        }
         // end state: always
         let d = st.down_set();
         if !d.is_empty() {
